@@ -242,6 +242,65 @@ def header_fields_constrained(F, S):
     return out
 
 
+def signature_length_floor(F, S):
+    """The loader's lower bound on the file-signature section length admits every length the saver writes: the saver writes
+    C + 32*h for a picture of height h >= 0, so a refusal of small lengths may refuse at most the lengths below C (an empty,
+    height-0 tileset is a valid picture and is written with exactly C)."""
+    from ..rules_stream import linear
+    from ..through import closure
+    out = []
+    wr = F.fn(T + "WriteCustomTileset", nparams=2, pred=lambda f: "Writer &," in f.key)
+    rd = F.fn(T + "ReadCustomTileset", nparams=1, pred=lambda f: "Reader &)" in f.key)
+    # the length the saver puts into the section whose tag is the file signature
+    wlen = None
+    for f0 in closure(F, wr, depth=1):
+        for nd in f0.nodes:
+            if nd["k"] == "DeclStmt":
+                for d in nd.get("decls", []):
+                    if (d.get("rec") or "").endswith("SectionHeader") and "init" in d:
+                        t = f0.term(d["init"])
+                        items = t[1] if t[0] == "initlist" else (t[2] if t[0] == "ctor" else ())
+                        if len(items) >= 2 and items[0] == ("global", T + "TagFileSignature"):
+                            wlen = f0.xterm(f0.kids(f0.strip(d["init"]))[1]) if t[0] == "initlist" else items[1]
+    if wlen is None:
+        raise AnalysisBroken("WriteCustomTileset: the file-signature section header was not found")
+    co, lmin = linear(wlen)
+    if any(v < 0 for v in co.values()):
+        raise AnalysisBroken("WriteCustomTileset: the section length is not an increasing function of the picture's height")
+    # the lower bound the loader's refusals establish on that field (wherever they are made)
+    eng = Engine(F, S)
+    ex = eng.analyze(rd, frozenset()) or frozenset()
+    lb = 0
+    why = "no lower bound"
+    n = 0
+    for f in ex:
+        if f[0] != "ev" or f[1] != "passed":
+            continue
+        g = f[2]
+        if g[0] not in ("<", "<=", "!="):
+            continue
+        def is_len(t):
+            return t[0] == "mem" and t[2] == "length" and "ignature" in repr(t[1])
+        if g[0] == "!=" and ((is_len(g[1]) and g[2] == ("const", 0)) or (is_len(g[2]) and g[1] == ("const", 0))):
+            n += 1
+            if lb < 1:
+                lb, why = 1, fmt_fact(g)
+        elif g[0] in ("<", "<=") and is_len(g[2]):
+            c2, k = linear(g[1])
+            if not c2:
+                n += 1
+                v = k + (1 if g[0] == "<" else 0)
+                if v > lb:
+                    lb, why = v, fmt_fact(g)
+    inst = T + "ValidateFileSignatureHeader#length-floor"
+    req = "the smallest section length the loader accepts is not above the smallest the saver writes (%d, a height-0 picture)" % lmin
+    if lb <= lmin:
+        out.append(ok("R-SIB", inst, rd.loc(rd.body), rd.qn, req, "loader accepts lengths >= %d (%s)" % (lb, why), nontrivial=n > 0))
+    else:
+        out.append(bad("R-SIB", inst, rd.loc(rd.body), rd.qn, req, "the loader refuses lengths below %d (%s): the saver's own output for height 0 (length %d) is refused" % (lb, why, lmin)))
+    return out
+
+
 def tileset_constraints(F, S):
     fn = F.fn(T + "ValidateTileset", nparams=1)
     eng = Engine(F, S)
@@ -281,6 +340,7 @@ def check(F, run, tier):
     run.add(once_each_side(F, S))
     run.add(validation_and_orientation(F, S))
     run.add(header_fields_constrained(F, S))
+    run.add(signature_length_floor(F, S))
     # the bytes written depend on the picture alone: no state carried over from an earlier call
     from .c18 import static_locals
     run.add([o for o in static_locals(F)[0] if "Tileset" in o.instance])
